@@ -81,6 +81,7 @@ func (ex *Exec) safetyCall(fr *Frame, st *State, site ssa.Instruction, role stri
 
 func (ex *Exec) callByKey(fr *Frame, key string, callee *ssa.Function, args, bindings []Value, resT types.Type, pos token.Pos, site ssa.Instruction, st *State, k func(*State, Value)) {
 	st.Trace = append(st.Trace, "call "+key)
+	ex.checkCallsite(fr, key, callee, args, site, st)
 	if in, ok := intrinsics[key]; ok {
 		ex.usedSpecs["intrinsic "+key] = true
 		r := in(ex, fr, st, site, args, resT)
@@ -462,7 +463,7 @@ func (ex *Exec) resolveModList(env *Env, list []*SExpr, ms *ModSet) {
 				ms.Mem = append(ms.Mem, memRegion{elem, s.Arr(), Add(s.Off(), s.Len()), Add(s.Off(), s.Cap())})
 			case "bufbytes": // content bytes of a bytes.Buffer from index lo on: bufbytes(buf, lo)
 				b := pre.eval(m.Args[0])
-				lo := Int(0)
+				lo := Neg(IntB(pow2[64]))
 				if len(m.Args) > 1 {
 					lo = pre.intTerm(m.Args[1])
 				}
@@ -731,4 +732,83 @@ func mentions(t *Term, names map[string]bool) bool {
 		}
 	}
 	return false
+}
+
+// checkCallsite: assertions the enclosing function's contract attaches to calls of key.
+// Locals are resolved at the call site; the callee's arguments are visible as $name / $0..$n.
+func (ex *Exec) checkCallsite(fr *Frame, key string, callee *ssa.Function, args []Value, site ssa.Instruction, st *State) {
+	if !fr.top || ex.con == nil || site == nil || ex.recording != nil {
+		return
+	}
+	cls := ex.con.Callsites[key]
+	if len(cls) == 0 {
+		return
+	}
+	env := ex.localEnv(fr, st, site)
+	for i, a := range args {
+		env.vars[fmt.Sprintf("$%d", i)] = a
+	}
+	if callee != nil {
+		for i, p := range callee.Params {
+			if i < len(args) {
+				env.vars["$"+p.Name()] = args[i]
+			}
+		}
+	}
+	for _, cl := range cls {
+		g := env.boolTerm(cl.Expr)
+		ex.oblige(st, "callsite@"+key, cl.Label, cl.Props, g, site.Pos(), fnKeyOf(fr.fn))
+		st.assume(g)
+	}
+}
+
+// localEnv: parameters (name0 = entry value), and local variables resolved to the SSA value
+// most recently referred to under that name on this path before the instruction at.
+func (ex *Exec) localEnv(fr *Frame, st *State, at ssa.Instruction) *Env {
+	env := ex.baseEnv(fr, st)
+	for i, p := range fr.fn.Params {
+		env.vars[p.Name()+"0"] = fr.args[i]
+	}
+	refs := ex.refsOf(fr.fn)
+	atBlock := at.Block()
+	atOrder := 0
+	n := 0
+	for _, b := range fr.fn.Blocks {
+		for _, ins := range b.Instrs {
+			n++
+			if ins == at {
+				atOrder = n
+			}
+		}
+	}
+	for name, rs := range refs {
+		var best *debugRef
+		for i := range rs {
+			r := &rs[i]
+			if r.block == atBlock {
+				if r.order > atOrder {
+					continue
+				}
+			} else if !r.block.Dominates(atBlock) {
+				continue
+			}
+			if _, has := fr.vals[r.val]; !has {
+				switch r.val.(type) {
+				case *ssa.Parameter, *ssa.FreeVar, *ssa.Const:
+				default:
+					continue
+				}
+			}
+			if best == nil || r.order > best.order {
+				best = r
+			}
+		}
+		if best == nil {
+			continue
+		}
+		if v, ok := ex.refValue(fr, st, best, nil); ok {
+			env.vars[name] = v
+		}
+	}
+	return env
 }
